@@ -188,6 +188,92 @@ def concurrent(ctx: Ctx, kind: str, doc_edges: set) -> None:
     ctx.notes[f"scheduled_histories_{kind}"] = total
 
 
+def batches(ctx: Ctx, kind: str, doc_edges: set) -> None:
+    """batch registration (`parallelize`: one registration record for n invocations), each entry stored under its own
+    invocation; then every member goes its own way"""
+    defer = DeferredThreads().install()
+    try:
+        for rnd in range(2 if ctx.quick else 8):
+            app = make_app(kind, ctx.tmp, app_id=f"c10b{kind}{rnd}")
+            rec = Recorder(app)
+            t = app.task(T.prog_body)
+            n = ctx.rng.choice([2, 3, 5])
+            group = t.parallelize([(ctx.rng.choice(["ok", "fail"]),) for _ in range(n)])
+            ids = [i.invocation_id for i in group.invocations]
+            t("ok")
+            rA = rctx("rA")
+            for inv in list(app.orchestrator.get_invocations_to_run(ctx.rng.randint(1, n), rA)):
+                try:
+                    inv.run(rA)
+                except BaseException:  # noqa: BLE001
+                    pass
+            ctx.rng.shuffle(defer.pending)
+            defer.flush()
+            flush(app)
+            judge(ctx, kind, app, rec, doc_edges, "batch-registration", {"batch": n})
+            # the time-range scan (what the monitor's timeline reads) attributes one REGISTERED entry to every member
+            import datetime as _dt
+            lo, hi = _dt.datetime(2000, 1, 1, tzinfo=_dt.UTC), _dt.datetime(2100, 1, 1, tzinfo=_dt.UTC)
+            seen = Counter()
+            for chunk in app.state_backend.iter_history_in_timerange(lo, hi):
+                for h in chunk:
+                    if h.status_record.status.value == "registered":
+                        seen[h.invocation_id] += 1
+            for i in ids:
+                if seen.get(i, 0) != 1:
+                    ctx.report(f"history-scan-registered-count[{kind}]", f"[{kind}] batch of {n}: the time-range scan holds {seen.get(i, 0)} REGISTERED entries for a member of the batch (all: {sorted(seen.values())})",
+                               {"backend": kind, "scenario": "batch-registration", "batch": n})
+                    break
+    finally:
+        defer.uninstall()
+
+
+def overlapping_writers(ctx: Ctx, kind: str, doc_edges: set) -> None:
+    """the background history writers of ONE invocation run concurrently (in the product they are unsynchronised threads):
+    every interleaving of the real `_add_histories` calls up to a pre-emption bound — source-line yield points in the
+    in-memory backend, SQL-statement yield points on SQLite"""
+    from pynenc.state_backend.mem_state_backend import MemStateBackend
+    from harness.props.c02 import SQL_PATCH
+    from harness.sched_line import LineSched
+    from harness.sched_sql import SqlSched, explore
+
+    defer = DeferredThreads().install()
+    sched = LineSched(line_targets=[MemStateBackend._add_histories], deep_targets=[MemStateBackend._add_histories]) if kind == "mem" else SqlSched(patch=SQL_PATCH, max_steps=20000)
+    sched.install()
+    total = 0
+    try:
+        app = make_app(kind, ctx.tmp, app_id=f"c10w{kind}")
+        t = app.task(T.prog_body)
+        rA = rctx("rA")
+        for nwriters in (2, 3):
+            def run_one(chooser, nwriters=nwriters):
+                defer.pending.clear()
+                app.purge()
+                rec = Recorder(app)
+                t("ok")                                    # REGISTERED
+                got = list(app.orchestrator.get_invocations_to_run(1, rA))     # PENDING
+                if nwriters > 2:
+                    got[0].run(rA)                         # RUNNING, SUCCESS
+                writers = list(defer.pending)
+                defer.pending.clear()
+                ctx.rng.shuffle(writers)
+                run = sched.run([w.run_now for w in writers[:4]], chooser)
+                for w in writers[4:]:
+                    w.run_now()
+                flush(app)
+                judge(ctx, kind, app, rec, doc_edges, f"overlapping-writers:{len(writers)}", {"schedule": run.choices})
+                del app.orchestrator._atomic_status_transition
+                del app.orchestrator._register_new_invocations
+                return run
+
+            for _ in explore(run_one, 2, 40 if ctx.quick else 600):
+                total += 1
+    finally:
+        sched.uninstall()
+        defer.uninstall()
+    ctx.notes[f"overlapping_writer_schedules_{kind}"] = total
+
+
 def run(ctx: Ctx) -> None:
     def gen() -> dict[str, str]:
         g = trs.gen()
@@ -201,6 +287,8 @@ def run(ctx: Ctx) -> None:
                        "distinct = distinct (backend, scenario, status-change sequence of an invocation)")
     for kind in ("mem", "sqlite"):
         sequential(ctx, kind, doc_edges)
+        batches(ctx, kind, doc_edges)
+        overlapping_writers(ctx, kind, doc_edges)
         concurrent(ctx, kind, doc_edges)
     ctx.obligation("flushed history == logged transitions (multiset, own invocation, documented path by time of change) on Mem and SQLite",
                    not any(v["signature"].startswith("history-") for v in ctx.violations), "see violations")
